@@ -11,9 +11,14 @@ package main
 
 import (
 	"fmt"
+	"go/ast"
+	"go/parser"
+	"go/token"
 	"os"
+	"path/filepath"
 	"strings"
 
+	"github.com/Dash-Industry-Forum/livesim2/cmd/livesim2/app"
 	"verifharness/lib"
 )
 
@@ -53,6 +58,8 @@ func run(c *lib.Ctx) error {
 // writeCases shards the cases by kind (the hand-over runs over the real 64 KiB buffer are the
 // slowest to evaluate and get a file of their own).
 func writeCases(c *lib.Ctx, terms []string) {
+	rounding, how := detectRounding()
+	c.Res.Notes = append(c.Res.Notes, "calcSegmentAvailabilityTime rounding read from the source: "+rounding+" ("+how+")")
 	groups := map[string][]string{}
 	order := []string{"avail", "hand", "handbig", "sess"}
 	per := map[string]int{"avail": 400, "hand": 400, "handbig": 3, "sess": 45}
@@ -76,9 +83,60 @@ func writeCases(c *lib.Ctx, terms []string) {
 			if j > len(g) {
 				j = len(g)
 			}
-			content := lib.CasesFile("From Verif Require Import GoSem Timeline Ingest CorrC16.\n", "c16case", "", g[i:j], "model_view")
+			defs := fmt.Sprintf("Definition mismatches := mismatches_r %s.\nDefinition model_view := model_view_r %s.\n", rounding, rounding)
+			content := lib.CasesFile("From Verif Require Import GoSem Timeline Ingest CorrC16.\n", "c16case", defs, g[i:j], "model_view")
 			c.WriteCases(fmt.Sprintf("cases_C16_%d.v", n), content)
 			n++
 		}
 	}
+}
+
+// detectRounding reads calcSegmentAvailabilityTime in the tree the harness was built from and says
+// how the float milliseconds become an integer: int64(x) -> RTrunc, int64(math.Ceil(x)) -> RCeil.
+// Anything else is reported as RTrunc (the pinned code) and shows up as a correspondence mismatch.
+func detectRounding() (string, string) {
+	dir := app.VerifC16SourceDir()
+	fset := token.NewFileSet()
+	f, err := parser.ParseFile(fset, filepath.Join(dir, "livesegment.go"), nil, 0)
+	if err != nil {
+		return "RTrunc", "source not readable: " + err.Error()
+	}
+	found := "RTrunc"
+	how := "function not found"
+	ast.Inspect(f, func(n ast.Node) bool {
+		fd, ok := n.(*ast.FuncDecl)
+		if !ok || fd.Name.Name != "calcSegmentAvailabilityTime" || fd.Body == nil {
+			return true
+		}
+		how = "no int64(...) conversion assigned to milliSeconds"
+		ast.Inspect(fd.Body, func(m ast.Node) bool {
+			as, ok := m.(*ast.AssignStmt)
+			if !ok || len(as.Lhs) != 1 || len(as.Rhs) != 1 {
+				return true
+			}
+			if id, ok := as.Lhs[0].(*ast.Ident); !ok || id.Name != "milliSeconds" {
+				return true
+			}
+			call, ok := as.Rhs[0].(*ast.CallExpr)
+			if !ok || len(call.Args) != 1 {
+				return true
+			}
+			if id, ok := call.Fun.(*ast.Ident); !ok || id.Name != "int64" {
+				return true
+			}
+			how = "int64(x)"
+			if inner, ok := call.Args[0].(*ast.CallExpr); ok {
+				if sel, ok := inner.Fun.(*ast.SelectorExpr); ok {
+					if pk, ok := sel.X.(*ast.Ident); ok && pk.Name == "math" && sel.Sel.Name == "Ceil" {
+						found, how = "RCeil", "int64(math.Ceil(x))"
+					} else {
+						how = "int64(" + sel.Sel.Name + "(x)): not modelled"
+					}
+				}
+			}
+			return true
+		})
+		return false
+	})
+	return found, how
 }
